@@ -32,6 +32,12 @@ func NewTernarySampler(prng sampling.PRNG, baseRing *Ring, X Ternary, montgomery
 	switch {
 	case X.P != 0 && X.H == 0:
 		ts.invDensity = 1 - X.P
+		// The sampling walks the binary expansions of 1-P and P: when 1-P is not below 1 in floating
+		// point (P under 2^-53) both expansions are empty and the walk never ends; P = 1 leaves no
+		// probability for zero, which the sampling refuses.
+		if !(ts.invDensity > 0 && ts.invDensity < 1) {
+			return nil, fmt.Errorf("invalid TernaryDistribution: P=%v cannot be sampled (1-P must lie strictly between 0 and 1 in floating point)", X.P)
+		}
 		ts.sample = ts.sampleProba
 		if ts.invDensity != 0.5 {
 			ts.computeMatrixTernary(ts.invDensity)
